@@ -114,9 +114,9 @@ let parse_op (s : string) : op =
     let i = n_of_int (Char.code s.[1] - 48) in
     let arg () = String.sub s 3 (String.length s - 3) in
     match s.[0] with
-    | 'c' -> Connect i
+    | 'c' | 'e' -> Connect i      (* e: the same connection over RC4; the model speaks plaintext *)
     | 'd' -> Close i
-    | 'w' -> SetBlocked (i, arg () = "0")
+    | 'w' -> SetBlocked (i, arg () = "0")   (* drip<k> = unlimited, through partial writes *)
     | 'b' -> Recv (i, List.map parse_item (List.filter (fun x -> x <> "") (String.split_on_char '/' (arg ()))))
     | _ -> failwith "op"
   end
